@@ -713,15 +713,23 @@ impl Quil for Expression {
                 expression,
             }) => {
                 write!(f, "{operator}")?;
-                format_inner_expression(f, fall_back_to_debug, expression)
+                if let Prefix(_) = expression.as_ref() {
+                    // Consecutive prefix operators (e.g. `--pi`) do not parse
+                    write!(f, "(")?;
+                    expression.write(f, fall_back_to_debug)?;
+                    write!(f, ")").map_err(Into::into)
+                } else {
+                    format_inner_expression(f, fall_back_to_debug, expression)
+                }
             }
             Variable(identifier) => write!(f, "%{identifier}").map_err(Into::into),
         }
     }
 }
 
-/// Utility function to wrap infix expressions that are part of an expression in parentheses, so
-/// that correct precedence rules are enforced.
+/// Utility function to wrap infix expressions (and complex literals with both a real and an
+/// imaginary part) that are part of an expression in parentheses, so that correct precedence
+/// rules are enforced.
 fn format_inner_expression(
     f: &mut impl std::fmt::Write,
     fall_back_to_debug: bool,
@@ -739,6 +747,11 @@ fn format_inner_expression(
             format_inner_expression(f, fall_back_to_debug, right)?;
             write!(f, ")")?;
             Ok(())
+        }
+        // A complex literal with both parts is written as a sum (or difference), so it needs
+        // parentheses to keep its precedence.
+        Expression::Number(value) if value.re != 0f64 && value.im != 0f64 => {
+            write!(f, "({})", format_complex(value)).map_err(Into::into)
         }
         _ => expression.write(f, fall_back_to_debug),
     }
